@@ -63,7 +63,7 @@ def gen_crate(udir, bdir, repo, meta, log, functions):
                 continue
             ma = re.match(r'\s*//@append\s+(\S+)', ln)
             if ma:
-                out.append(open(os.path.join(udir, ma.group(1))).read())
+                out.append(open(os.path.join(udir, ma.group(1))).read().replace('@VERIF@', os.path.dirname(os.path.dirname(os.path.dirname(udir)))))
                 log.append(dict(rule='append', before='', after='harness module %s appended as a child module' % ma.group(1), where=fn))
                 continue
             mm = re.match(r'\s*//@extract\s+(\S+)\s+(\S+)(.*)$', ln)
